@@ -107,10 +107,18 @@ def explore(ctx):
             flt.append({"name": "sortContours"})
         if flt:
             desc["lib"][FILTERS_KEY] = flt
-        if rng.random() < 0.3:
-            desc["lib"]["public.skipExportGlyphs"] = [names[-1]]
-        if rng.random() < 0.3:
-            opts["skipExportGlyphs"] = [names[-2]]
+        # non-exported glyphs: single ones, and composites listed together with (some of) their own bases, so that
+        # the skip filter has to decompose a glyph that is itself skipped
+        comps = [g for g in desc["glyphs"] if g["components"]]
+        def skip_list():
+            if comps and rng.random() < 0.6:
+                g = rng.choice(comps)
+                return [g["name"]] + sorted({b for b, _ in g["components"]})[:rng.randint(1, 2)]
+            return [rng.choice(names)]
+        if rng.random() < 0.35:
+            desc["lib"]["public.skipExportGlyphs"] = skip_list()
+        if rng.random() < 0.35:
+            opts["skipExportGlyphs"] = skip_list()
         fn = rng.choice(["compileOTF", "compileTTF"])
         if rng.random() < 0.2:
             opts["removeOverlaps"] = True
